@@ -40,6 +40,17 @@ const (
 	idleSessionTimeout = time.Minute
 )
 
+// replaySignatureInput returns the leading bytes of an encrypted metadata
+// that identify it in the replay cache. When the metadata starts with a nonce,
+// the whole nonce is used: a traffic pattern can fix up to 12 bytes of it,
+// which would leave only 4 random bytes among the first 16.
+func replaySignatureInput(encryptedMeta []byte, hasNonce bool) []byte {
+	if hasNonce {
+		return encryptedMeta[:cipher.DefaultNonceSize]
+	}
+	return encryptedMeta[:cipher.DefaultOverhead]
+}
+
 // The packet transport shares the replay cache with the stream transport.
 // A session segment without payload has the same layout on both transports,
 // so traffic recorded on one transport must not be accepted on the other one.
@@ -401,7 +412,7 @@ func (u *PacketUnderlay) readOneSegment() (*segment, net.Addr, error) {
 		// Read encrypted metadata.
 		encryptedMeta := b[:packetNonHeaderPosition]
 		isNewSessionReplay := false
-		if packetReplayCache.IsDuplicate(encryptedMeta[:cipher.DefaultOverhead], addr.String()) {
+		if packetReplayCache.IsDuplicate(replaySignatureInput(encryptedMeta, true), addr.String()) {
 			replay.NewSession.Add(1)
 			isNewSessionReplay = true
 		}
